@@ -180,6 +180,19 @@ Theorem c16_rewrites_are_what_the_other_side_sees_pubsub :
 Proof. intros V. exact pubsub_trace. Qed.
 Print Assumptions c16_rewrites_are_what_the_other_side_sees_pubsub.
 
+(** arity: Go's reflect call and the generated [len(ret) != n] checks.  A list that changes the
+    number of arguments panics before the proxied function is reached (all entries, no exit); one
+    that changes the number of results panics in the generated stub after all exits *)
+Theorem c16_arity_break_panics : forall (V : Type) nin nret (f : handler V) (ms : list (mwspec V)) a,
+  (length (args_in (rev ms) a) <> nin ->
+   arity_stub nret (new_method nin f (map mw_of ms)) a = (enter_events (rev ms) a, None))
+  /\ (forall ctr r, length (args_in (rev ms) a) = nin -> f (args_in (rev ms) a) = (ctr, Some r) ->
+      length (res_out ms r) <> nret ->
+      arity_stub nret (new_method nin f (map mw_of ms)) a
+      = (enter_events (rev ms) a ++ ctr ++ exit_events ms r, None)).
+Proof. exact arity_break_panics. Qed.
+Print Assumptions c16_arity_break_panics.
+
 (* ------------------------------------------------------------------------------------------- *)
 (** non-vacuity: a rewriting instance (client list [m1 rewrites arg 1; m2], processor list [m3
     rewrites the result]) satisfies the hypotheses and computes to the stated trace *)
